@@ -437,3 +437,501 @@ Proof.
     rewrite amatch_dstar_end. simpl option_map.
     apply optany_end; [eapply pmatch_rest_ok; eauto|]. reflexivity.
 Qed.
+
+Lemma amatch_post_nil post vs c : dstar_last post = true ->
+  amatch (map (fun s => (s, false)) post) vs = Some c -> c = [].
+Proof.
+  intros Hdl H. destruct (dstar_last_cases post Hdl) as [Hnd|(post' & -> & Hnd)].
+  - rewrite <- (app_nil_r (map _ post)) in H. rewrite (amatch_nodstar false post Hnd [] vs) in H.
+    destruct (pmatch post vs) as [[m r]|]; [|discriminate].
+    destruct r; simpl in H; [|discriminate]. now inversion H.
+  - rewrite map_app in H. simpl map at 2 in H. rewrite (amatch_nodstar false post' Hnd _ vs) in H.
+    destruct (pmatch post' vs) as [[m r]|]; [|discriminate].
+    rewrite amatch_dstar_end in H. simpl in H. now inversion H.
+Qed.
+
+Lemma joinc_app c m r : m <> [] -> joinc c (m ++ r)%list = joinc c m ++ tails c r.
+Proof.
+  destruct m as [|x m]; [congruence|]. intros _. simpl. rewrite tails_app. now rewrite sapp_assoc.
+Qed.
+
+Lemma ns_post post : needs_slash (RClose :: items_tail post).
+Proof. apply ns_close. rewrite <- (app_nil_r (items_tail post)). apply ns_tail. apply ns_nil. Qed.
+
+Lemma sub_match sub post x vs :
+  sub <> [] -> forallb seg_ok sub = true -> forallb seg_ok post = true ->
+  (match post with [] => dstar_last sub | _ => no_dstar sub && dstar_last post end) = true ->
+  seg_str x -> Forall seg_str vs ->
+  rmatch (items_first sub ++ RClose :: items_tail post)%list (CIn "") (x ++ tails slash vs) =
+  match amatch (map (fun s => (s, true)) sub ++ map (fun s => (s, false)) post)%list (x :: vs) with
+  | Some cap => Some (Some (joinc slash cap))
+  | None => None
+  end.
+Proof.
+  intros Hne Hoks Hokp Hcls Hx Hvs.
+  assert (Hcase : (no_dstar sub = true /\ dstar_last post = true) \/
+                  (post = [] /\ exists sub', sub = (sub' ++ [SDstar])%list /\ no_dstar sub' = true)).
+  { destruct post as [|p post].
+    - destruct (dstar_last_cases sub Hcls) as [H|H]; [left; split; [exact H|reflexivity]|right; split; [reflexivity|exact H]].
+    - apply andb_true_iff in Hcls. now left. }
+  destruct Hcase as [[Hnd Hdl]|(-> & sub' & -> & Hnd)].
+  - destruct sub as [|s segs]; [congruence|].
+    rewrite (first_nodstar s segs _ _ x vs Hoks Hnd (ns_post post) Hx Hvs).
+    rewrite (amatch_nodstar true (s :: segs) Hnd _ (x :: vs)).
+    destruct (pmatch (s :: segs) (x :: vs)) as [[m r]|] eqn:E; [|reflexivity].
+    cbn [rmatch push]. simpl append.
+    rewrite (post_match post _ r Hokp Hdl (pmatch_rest_ok _ _ _ _ E (Forall_cons _ Hx Hvs))).
+    destruct (amatch (map (fun s0 => (s0, false)) post) r) as [c|] eqn:Ea; [|reflexivity].
+    apply amatch_post_nil in Ea; [|exact Hdl]. subst c. simpl. now rewrite app_nil_r.
+  - rewrite forallb_app in Hoks. apply andb_true_iff in Hoks as [Hoks _].
+    destruct sub' as [|s segs].
+    + cbn [app map items_first items_tail item]. rewrite amatch_dstar_end.
+      apply any_end.
+      * rewrite contains_app. destruct Hx as [_ Hx]. rewrite Hx. simpl. now apply seg_strs_nl.
+      * reflexivity.
+    + assert (E1 : (items_first ((s :: segs) ++ [SDstar]) ++ RClose :: items_tail [] =
+                    items_first (s :: segs) ++ [ROptAny; RClose])%list).
+      { simpl. rewrite items_tail_app. simpl. now rewrite <- app_assoc. }
+      rewrite E1.
+      rewrite (first_nodstar s segs _ _ x vs Hoks Hnd (ns_optany _ (ns_close _ ns_nil)) Hx Hvs).
+      rewrite app_nil_r. rewrite map_app. simpl map at 2.
+      rewrite (amatch_nodstar true (s :: segs) Hnd _ (x :: vs)).
+      destruct (pmatch (s :: segs) (x :: vs)) as [[m r]|] eqn:E; [|reflexivity].
+      rewrite amatch_dstar_end. simpl option_map.
+      assert (Hm : m <> []).
+      { simpl in E. destruct (seg_matches s x); [|discriminate].
+        destruct (pmatch segs vs) as [[m' r']|]; [|discriminate]. inversion E. discriminate. }
+      cbv iota beta. rewrite (joinc_app slash m r Hm).
+      apply optany_end; [eapply pmatch_rest_ok; [exact E|now constructor]|]. reflexivity.
+Qed.
+
+(* the pair the emitted guard lets through *)
+Definition contrib_of (k : string) (m : option (option string)) : option (string * string) :=
+  match m with
+  | Some (Some cap) => if is_empty cap then None else Some (k, cap)
+  | _ => None
+  end.
+
+Lemma seg_str_pieces x l : contains slash x = false -> Forall (fun y => contains slash y = false) l ->
+  contains nl (x ++ tails slash l) = false -> seg_str x /\ Forall seg_str l.
+Proof.
+  intros Hx Hl Hn. rewrite contains_app in Hn. apply orb_false_iff in Hn as [Hnx Hnl].
+  split; [split; assumption|].
+  induction l as [|y l IH]; [constructor|].
+  inversion Hl; subst. simpl in Hnl.
+  rewrite contains_app in Hnl. apply orb_false_iff in Hnl as [Hny Hnl].
+  constructor; [split; assumption|]. now apply IH.
+Qed.
+
+Lemma sem_equiv t v : aip_class t = true -> nl_free v = true ->
+  contrib_of (t_key t) (rx_match (rx_of t) v) = aip_contribution t v.
+Proof.
+  intros Hc Hn. unfold aip_class in Hc.
+  repeat (apply andb_true_iff in Hc as [Hc ?]).
+  rename H into Hshape, H0 into Hpre_nd, H1 into Hshort, H2 into Hne, H3 into Hkey, H4 into Hokpost, H5 into Hoksub.
+  rename Hc into Hokpre.
+  assert (Hsub : t_sub t <> []) by (destruct (t_sub t); [discriminate|discriminate]).
+  unfold nl_free in Hn. apply negb_true_iff in Hn.
+  destruct (splitc_shape slash v) as (x & l & Hs & Hv & Hx & Hl).
+  rewrite Hv in Hn. destruct (seg_str_pieces x l Hx Hl Hn) as [Hxs Hls].
+  unfold aip_contribution, rx_match, rx_of, flat, group_items. rewrite Hs. rewrite Hv.
+  destruct (t_pre t) as [|p ps] eqn:Epre.
+  - cbn [map app]. cbn [rmatch]. rewrite <- app_assoc. cbn [app].
+    rewrite (sub_match (t_sub t) (t_post t) x l Hsub Hoksub Hokpost Hshape Hxs Hls).
+    destruct (amatch _ (x :: l)); reflexivity.
+  - rewrite (first_nodstar p ps _ _ x l Hokpre Hpre_nd (ns_slash _) Hxs Hls).
+    rewrite (amatch_nodstar false (p :: ps) Hpre_nd _ (x :: l)).
+    destruct (pmatch (p :: ps) (x :: l)) as [[m r]|] eqn:E; [|reflexivity].
+    cbn [push]. destruct r as [|y r].
+    + (* nothing is left for the named segment: the regex wants a slash; the template can only go on with a lone double star *)
+      cbn [tails rmatch contrib_of].
+      destruct (t_sub t) as [|s sub'] eqn:Es; [congruence|].
+      destruct s as [l0| |]; try reflexivity.
+      destruct (t_post t) as [|q post'] eqn:Ep.
+      * destruct sub' as [|s2 sub'']; [|discriminate Hshape].
+        cbn [map app]. rewrite amatch_dstar_end. reflexivity.
+      * simpl in Hshape. discriminate Hshape.
+    + pose proof (pmatch_rest_ok _ _ _ _ E (Forall_cons _ Hxs Hls)) as Hr.
+      inversion Hr as [|? ? Hy Hr']; subst.
+      cbn [tails]. rewrite rmatch_slash. cbn [push app]. cbn [rmatch]. rewrite <- app_assoc. cbn [app].
+      rewrite (sub_match (t_sub t) (t_post t) y r Hsub Hoksub Hokpost Hshape Hy Hr').
+      destruct (amatch _ (y :: r)) as [c|]; [|reflexivity]. simpl. reflexivity.
+Qed.
+
+(* ================================================================ the code's translation of a class template *)
+Definition single (s : seg) : list rx := [item s].
+
+Lemma has_pair_no a b : forall l, contains a l = false -> has_pair a b l = false.
+Proof.
+  induction l as [|x l IH]; intro H; [reflexivity|].
+  simpl in H. apply orb_false_iff in H as [Hx Hl].
+  destruct l as [|y l]; [reflexivity|].
+  change (has_pair a b (String x (String y l))) with ((Ascii.eqb x a && Ascii.eqb y b) || has_pair a b (String y l)).
+  rewrite Hx. simpl. now apply IH.
+Qed.
+
+Lemma conv_plain rec s : seg_ok s = true -> convert_segment rec (pseg s) = Ok (single s).
+Proof.
+  destruct s as [l| |]; intro H; [|reflexivity|reflexivity].
+  simpl in H. unfold convert_segment, pseg.
+  rewrite (lit_no lbrace l H) by tauto.
+  rewrite (has_pair_no star star l) by (apply lit_no; tauto).
+  rewrite (lit_no star l H) by tauto. reflexivity.
+Qed.
+
+Lemma map_res_plain rec : forall l, forallb seg_ok l = true ->
+  map_res (convert_segment rec) (map pseg l) = Ok (map single l).
+Proof.
+  induction l as [|s l IH]; intro H; [reflexivity|].
+  simpl in H. apply andb_true_iff in H as [Hs Hl]. simpl. rewrite (conv_plain rec s Hs). now rewrite (IH Hl).
+Qed.
+
+Lemma map_res_app {A B} (f : A -> res B) : forall a b ra rb,
+  map_res f a = Ok ra -> map_res f b = Ok rb -> map_res f (a ++ b)%list = Ok (ra ++ rb)%list.
+Proof.
+  induction a as [|x a IH]; intros b ra rb Ha Hb; simpl in *.
+  - inversion Ha; subst. exact Hb.
+  - destruct (f x) as [y|e]; [|discriminate]. destruct (map_res f a) as [ys|e] eqn:E; [|discriminate].
+    inversion Ha; subst. now rewrite (IH b ys rb eq_refl Hb).
+Qed.
+
+Lemma merge_tail_plain : forall l, flat_map merge_piece (map single l) = items_tail l.
+Proof.
+  induction l as [|s l IH]; [reflexivity|]. simpl. rewrite IH. destruct s; reflexivity.
+Qed.
+
+Lemma pseg_no c s : seg_ok s = true -> (c = slash \/ c = lbrace \/ c = rbrace \/ c = eqc) -> contains c (pseg s) = false.
+Proof.
+  intros H Hc. destruct s as [l| |].
+  - apply lit_no; [exact H|]. tauto.
+  - destruct Hc as [->|[->|[->| ->]]]; reflexivity.
+  - destruct Hc as [->|[->|[->| ->]]]; reflexivity.
+Qed.
+
+Lemma psegs_no c l : forallb seg_ok l = true -> (c = slash \/ c = lbrace \/ c = rbrace \/ c = eqc) ->
+  Forall (fun y => contains c y = false) (map pseg l).
+Proof.
+  intros H Hc. induction l as [|s l IH]; [constructor|].
+  simpl in H. apply andb_true_iff in H as [Hs Hl]. constructor; [now apply pseg_no|now apply IH].
+Qed.
+
+Lemma contains_joinc c d l : Ascii.eqb c d = false -> Forall (fun x => contains d x = false) l ->
+  contains d (joinc c l) = false.
+Proof.
+  intros Hcd H. destruct l as [|x l]; [reflexivity|]. inversion H; subst. simpl.
+  rewrite contains_app. rewrite H2. simpl. now apply contains_tails.
+Qed.
+
+Lemma break_at_none f : forall l, existsb f l = false -> break_at f l = (l, []).
+Proof.
+  induction l as [|x l IH]; intro H; [reflexivity|].
+  simpl in H. apply orb_false_iff in H as [Hx Hl]. simpl. rewrite Hx. now rewrite (IH Hl).
+Qed.
+
+Lemma break_at_hit f : forall a x r, existsb f a = false -> f x = true -> break_at f (a ++ x :: r)%list = (a, x :: r).
+Proof.
+  induction a as [|y a IH]; intros x r Ha Hx; simpl.
+  - now rewrite Hx.
+  - simpl in Ha. apply orb_false_iff in Ha as [Hy Ha]. rewrite Hy. now rewrite (IH x r Ha Hx).
+Qed.
+
+Lemma no_brace_psegs l : forallb seg_ok l = true -> existsb has_brace (map pseg l) = false.
+Proof.
+  induction l as [|s l IH]; intro H; [reflexivity|].
+  simpl in H. apply andb_true_iff in H as [Hs Hl]. simpl. unfold has_brace at 1.
+  rewrite (pseg_no lbrace s Hs) by tauto. rewrite (pseg_no rbrace s Hs) by tauto. simpl. now apply IH.
+Qed.
+
+Lemma split_plain l : forallb seg_ok l = true -> split_into_segments (map pseg l) = Ok (map pseg l).
+Proof.
+  intro H. unfold split_into_segments. now rewrite (break_at_none has_brace _ (no_brace_psegs l H)).
+Qed.
+
+Lemma convert_S f t : convert (S f) t =
+  if Nat.ltb 1 (count_char lbrace t) then Err EValue else
+  match split_into_segments (splitc slash t) with
+  | Err e => Err e
+  | Ok segs => match map_res (convert_segment (convert f)) segs with
+               | Err e => Err e
+               | Ok rs => Ok (merge_rx rs)
+               end
+  end.
+Proof. reflexivity. Qed.
+
+Lemma convert_plain f s segs : forallb seg_ok (s :: segs) = true ->
+  convert (S f) (joinc slash (map pseg (s :: segs))) = Ok (items_first (s :: segs)).
+Proof.
+  intro H. rewrite convert_S.
+  assert (Hb : contains lbrace (joinc slash (map pseg (s :: segs))) = false).
+  { apply contains_joinc; [reflexivity|]. apply psegs_no; [exact H|tauto]. }
+  rewrite (count_char_0 _ _ Hb). cbn [Nat.ltb Nat.leb].
+  assert (Hs : splitc slash (joinc slash (map pseg (s :: segs))) = map pseg (s :: segs)).
+  { pose proof (psegs_no slash (s :: segs) H) as Hf. cbn [map joinc].
+    cbn [map] in Hf. assert (Hf' := Hf (or_introl eq_refl)). inversion Hf'; subst. now apply splitc_joinc. }
+  rewrite Hs. rewrite (split_plain _ H). rewrite (map_res_plain _ _ H).
+  cbn [map merge_rx items_first]. rewrite merge_tail_plain. reflexivity.
+Qed.
+
+Lemma contains_mid c a b : contains c (a ++ String c b) = true.
+Proof. rewrite contains_app. simpl. rewrite Ascii.eqb_refl. simpl. now rewrite orb_true_r. Qed.
+
+Lemma drop_last_snoc c : forall x, drop_last (x ++ s1 c) = x.
+Proof.
+  induction x as [|a x IH]; [reflexivity|].
+  simpl. rewrite IH. destruct x; reflexivity.
+Qed.
+
+Lemma strip_ends_braces x : strip_ends (String lbrace (x ++ s1 rbrace)) = x.
+Proof. unfold strip_ends. simpl. apply drop_last_snoc. Qed.
+
+Lemma contains_head c y : contains c (String c y) = true.
+Proof. simpl. now rewrite Ascii.eqb_refl. Qed.
+Lemma contains_last c a x : contains c (String a (x ++ s1 c)) = true.
+Proof. change (String a (x ++ s1 c)) with (String a x ++ String c ""). apply contains_mid. Qed.
+
+Lemma conv_named f t : aip_class t = true ->
+  convert_segment (convert (S f)) (named_str t) = Ok (group_items t).
+Proof.
+  intro Hc. unfold aip_class in Hc. repeat (apply andb_true_iff in Hc as [Hc ?]).
+  rename H into Hshape, H0 into Hpre_nd, H1 into Hshort, H2 into Hne, H3 into Hkey, H4 into Hokpost, H5 into Hoksub.
+  pose proof (is_ident_word _ Hkey) as Hw.
+  unfold named_str, group_items. destruct (t_short t).
+  - destruct (t_sub t) as [|[| |] [|]]; try discriminate Hshort.
+    change ("{" ++ t_key t ++ "}") with (String lbrace (t_key t ++ s1 rbrace)).
+    unfold convert_segment. rewrite contains_head. rewrite contains_last. cbn [negb]. rewrite strip_ends_braces.
+    rewrite (word_no eqc _ Hw) by tauto. reflexivity.
+  - destruct (t_sub t) as [|s segs] eqn:Es; [discriminate Hne|].
+    set (subs := joinc slash (map pseg (s :: segs))).
+    assert (E : "{" ++ t_key t ++ "=" ++ subs ++ "}" = String lbrace ((t_key t ++ String eqc subs) ++ s1 rbrace)).
+    { simpl. f_equal. rewrite sapp_assoc. reflexivity. }
+    rewrite E. unfold convert_segment. rewrite contains_head. rewrite contains_last. cbn [negb]. rewrite strip_ends_braces.
+    rewrite contains_mid. cbn [negb].
+    assert (Hsub_eq : contains eqc subs = false).
+    { apply contains_joinc; [reflexivity|]. apply psegs_no; [exact Hoksub|tauto]. }
+    assert (Hsp : splitc eqc (t_key t ++ String eqc subs) = [t_key t; subs]).
+    { replace (String eqc subs) with (tails eqc [subs]) by (simpl; now rewrite sapp_nil_r).
+      apply splitc_joinc; [apply word_no; [exact Hw|tauto]|]. constructor; [exact Hsub_eq|constructor]. }
+    rewrite Hsp. unfold subs. rewrite (convert_plain f s segs Hoksub). reflexivity.
+Qed.
+
+Lemma tails_flatten c : forall A L B, L <> [] -> tails c (A ++ joinc c L :: B)%list = tails c (A ++ L ++ B)%list.
+Proof.
+  induction A as [|a A IH]; intros L B HL.
+  - destruct L as [|x L]; [congruence|]. simpl. rewrite tails_app. now rewrite !sapp_assoc.
+  - simpl. now rewrite (IH L B HL).
+Qed.
+
+Lemma joinc_flatten c A L B : L <> [] -> joinc c (A ++ joinc c L :: B)%list = joinc c (A ++ L ++ B)%list.
+Proof.
+  intro HL. destruct A as [|a A].
+  - destruct L as [|x L]; [congruence|]. simpl. rewrite tails_app. now rewrite !sapp_assoc.
+  - simpl. now rewrite (tails_flatten c A L B HL).
+Qed.
+
+Lemma tails_snoc c y : forall l x, tails c (l ++ [x])%list ++ y = tails c (l ++ [(x ++ y)%string])%list.
+Proof.
+  induction l as [|a l IH]; intro x; simpl.
+  - now rewrite !sapp_nil_r.
+  - rewrite <- IH. now rewrite !sapp_assoc.
+Qed.
+
+Lemma splitc_joinc_list c l : l <> [] -> Forall (fun y => contains c y = false) l -> splitc c (joinc c l) = l.
+Proof.
+  destruct l as [|x l]; [congruence|]. intros _ H. inversion H; subst. now apply splitc_joinc.
+Qed.
+
+Lemma pseg_not_dotstar s : seg_ok s = true -> String.eqb (pseg s) ".*" = false.
+Proof.
+  destruct s as [l| |]; intro H; [|reflexivity|reflexivity].
+  simpl. destruct (String.eqb l ".*") eqn:E; [|reflexivity].
+  apply String.eqb_eq in E. subst l. discriminate H.
+Qed.
+
+Lemma merge_raw_tails : forall l, forallb (fun y => negb (String.eqb y ".*")) l = true ->
+  sconcat (map merge_raw_piece l) = tails slash l.
+Proof.
+  induction l as [|y l IH]; intro H; [reflexivity|].
+  simpl in H. apply andb_true_iff in H as [Hy Hl]. apply negb_true_iff in Hy.
+  simpl. unfold merge_raw_piece at 1. rewrite Hy. rewrite (IH Hl). reflexivity.
+Qed.
+
+Lemma has_brace_l x y : has_brace (String lbrace x ++ y) = true.
+Proof. reflexivity. Qed.
+Lemma has_brace_r x : has_brace (x ++ s1 rbrace) = true.
+Proof. unfold has_brace. change (x ++ s1 rbrace) with (x ++ String rbrace ""). rewrite (contains_mid rbrace). apply orb_true_r. Qed.
+
+Lemma named_shape t : aip_class t = true ->
+  (contains slash (named_str t) = false /\ has_brace (named_str t) = true) \/
+  (exists X0 mids Y, named_str t = X0 ++ tails slash (map pseg mids ++ [Y])%list /\ forallb seg_ok mids = true /\
+     contains slash X0 = false /\ has_brace X0 = true /\ contains slash Y = false /\ has_brace Y = true /\
+     String.eqb Y ".*" = false).
+Proof.
+  intro Hc. unfold aip_class in Hc. repeat (apply andb_true_iff in Hc as [Hc ?]).
+  rename H into Hshape, H0 into Hpre_nd, H1 into Hshort, H2 into Hne, H3 into Hkey, H4 into Hokpost, H5 into Hoksub.
+  pose proof (is_ident_word _ Hkey) as Hw.
+  assert (Hks : contains slash (t_key t) = false) by (apply word_no; [exact Hw|tauto]).
+  unfold named_str. destruct (t_short t).
+  - left. split; [|reflexivity].
+    change ("{" ++ t_key t ++ "}") with (String lbrace (t_key t ++ "}")). simpl. rewrite contains_app. now rewrite Hks.
+  - destruct (t_sub t) as [|s segs] eqn:Es; [discriminate Hne|].
+    simpl in Hoksub. apply andb_true_iff in Hoksub as [Hs Hsegs].
+    destruct segs as [|s2 segs'] eqn:Esegs.
+    + left. split; [|reflexivity]. simpl. rewrite contains_app, Hks. simpl. rewrite contains_app.
+      rewrite sapp_nil_r. rewrite (pseg_no slash s Hs) by tauto. reflexivity.
+    + right. assert (Hnn : s2 :: segs' <> []) by discriminate.
+      destruct (exists_last Hnn) as (mids & sn & Elast). rewrite Elast in *.
+      rewrite forallb_app in Hsegs. apply andb_true_iff in Hsegs as [Hmids Hsn].
+      simpl in Hsn. apply andb_true_iff in Hsn as [Hsn _].
+      exists ("{" ++ t_key t ++ "=" ++ pseg s), mids, (pseg sn ++ "}").
+      split; [|split; [exact Hmids|split; [|split; [reflexivity|split; [|split]]]]].
+      * cbn [map joinc]. rewrite map_app. cbn [map].
+        rewrite <- (tails_snoc slash "}" (map pseg mids) (pseg sn)).
+        rewrite !sapp_assoc. reflexivity.
+      * simpl. rewrite contains_app, Hks. simpl. now apply pseg_no; tauto.
+      * rewrite contains_app. rewrite (pseg_no slash sn Hsn) by tauto. reflexivity.
+      * apply (has_brace_r (pseg sn)).
+      * destruct (String.eqb (pseg sn ++ "}") ".*") eqn:E; [|reflexivity].
+        apply String.eqb_eq in E. assert (C : contains rbrace (pseg sn ++ "}") = contains rbrace ".*") by now rewrite E.
+        change (pseg sn ++ "}") with (pseg sn ++ String rbrace "") in C. rewrite contains_mid in C. discriminate C.
+Qed.
+
+Lemma existsb_has_brace_false_noeq l : forallb seg_ok l = true ->
+  forallb (fun y => negb (String.eqb y ".*")) (map pseg l) = true.
+Proof.
+  induction l as [|s l IH]; intro H; [reflexivity|].
+  simpl in H. apply andb_true_iff in H as [Hs Hl]. simpl. rewrite (pseg_not_dotstar s Hs). simpl. now apply IH.
+Qed.
+
+Lemma split_named t : aip_class t = true ->
+  split_into_segments (splitc slash (tmpl_print t)) = Ok (map pseg (t_pre t) ++ named_str t :: map pseg (t_post t))%list.
+Proof.
+  intro Hc. pose proof (named_shape t Hc) as Hsh.
+  unfold aip_class in Hc. repeat (apply andb_true_iff in Hc as [Hc ?]).
+  rename H into Hshape, H0 into Hpre_nd, H1 into Hshort, H2 into Hne, H3 into Hkey, H4 into Hokpost, H5 into Hoksub.
+  rename Hc into Hokpre.
+  set (P := map pseg (t_pre t)). set (Q := map pseg (t_post t)). set (N := named_str t) in *.
+  assert (HP : Forall (fun y => contains slash y = false) P) by (apply psegs_no; [exact Hokpre|tauto]).
+  assert (HQ : Forall (fun y => contains slash y = false) Q) by (apply psegs_no; [exact Hokpost|tauto]).
+  assert (HPb : existsb has_brace P = false) by now apply no_brace_psegs.
+  assert (HQb : existsb has_brace Q = false) by now apply no_brace_psegs.
+  unfold tmpl_print. fold P Q N.
+  destruct Hsh as [[Hns Hnb]|(X0 & mids & Y & EN & Hmids & HX0s & HX0b & HYs & HYb & HYne)].
+  - rewrite splitc_joinc_list.
+    + unfold split_into_segments. rewrite (break_at_hit has_brace P N Q HPb Hnb).
+      now rewrite (break_at_none has_brace Q HQb).
+    + destruct P; discriminate.
+    + apply Forall_app. split; [exact HP|]. constructor; assumption.
+  - set (M := map pseg mids) in *.
+    assert (HM : Forall (fun y => contains slash y = false) M) by (apply psegs_no; [exact Hmids|tauto]).
+    assert (HMb : existsb has_brace M = false) by now apply no_brace_psegs.
+    assert (EN' : N = joinc slash (X0 :: M ++ [Y])) by exact EN.
+    rewrite EN'. rewrite joinc_flatten by discriminate.
+    rewrite splitc_joinc_list.
+    + unfold split_into_segments. cbn [app].
+      rewrite (break_at_hit has_brace P X0 _ HPb HX0b).
+      rewrite <- app_assoc. cbn [app].
+      rewrite (break_at_hit has_brace M Y Q HMb HYb). rewrite HQb.
+      unfold merge_raw. rewrite merge_raw_tails; [reflexivity|].
+      rewrite forallb_app. unfold M. rewrite (existsb_has_brace_false_noeq mids Hmids). simpl. now rewrite HYne.
+    + destruct P; discriminate.
+    + apply Forall_app. split; [exact HP|]. apply Forall_app. split; [|exact HQ].
+      constructor; [exact HX0s|]. apply Forall_app. split; [exact HM|]. constructor; [exact HYs|constructor].
+Qed.
+
+Fixpoint csum (d : ascii) (l : list string) : nat :=
+  match l with [] => 0 | x :: l' => count_char d x + csum d l' end.
+
+Lemma count_tails c d : Ascii.eqb c d = false -> forall l, count_char d (tails c l) = csum d l.
+Proof.
+  intros Hcd. induction l as [|x l IH]; [reflexivity|]. simpl. rewrite Hcd. rewrite count_char_app. now rewrite IH.
+Qed.
+Lemma count_joinc c d l : Ascii.eqb c d = false -> count_char d (joinc c l) = csum d l.
+Proof.
+  intro Hcd. destruct l as [|x l]; [reflexivity|]. simpl. rewrite count_char_app. now rewrite (count_tails c d Hcd).
+Qed.
+Lemma csum_app d a b : csum d (a ++ b)%list = csum d a + csum d b.
+Proof. induction a as [|x a IH]; simpl; [reflexivity|]. rewrite IH. lia. Qed.
+Lemma csum_0 d l : Forall (fun y => contains d y = false) l -> csum d l = 0.
+Proof.
+  induction l as [|x l IH]; intro H; [reflexivity|]. inversion H; subst. simpl.
+  rewrite (count_char_0 d x H2). now rewrite (IH H3).
+Qed.
+
+Lemma count_named t : aip_class t = true -> count_char lbrace (named_str t) = 1.
+Proof.
+  intro Hc. unfold aip_class in Hc. repeat (apply andb_true_iff in Hc as [Hc ?]).
+  rename H into Hshape, H0 into Hpre_nd, H1 into Hshort, H2 into Hne, H3 into Hkey, H4 into Hokpost, H5 into Hoksub.
+  pose proof (is_ident_word _ Hkey) as Hw.
+  assert (Hk : count_char lbrace (t_key t) = 0) by (apply count_char_0; apply word_no; [exact Hw|tauto]).
+  unfold named_str. destruct (t_short t).
+  - rewrite !count_char_app. rewrite Hk. reflexivity.
+  - rewrite !count_char_app. rewrite Hk.
+    rewrite (count_joinc slash lbrace _ eq_refl). rewrite csum_0; [reflexivity|].
+    apply psegs_no; [exact Hoksub|tauto].
+Qed.
+
+Lemma count_print t : aip_class t = true -> count_char lbrace (tmpl_print t) = 1.
+Proof.
+  intro Hc. pose proof (count_named t Hc) as Hn.
+  unfold aip_class in Hc. repeat (apply andb_true_iff in Hc as [Hc ?]).
+  unfold tmpl_print. rewrite (count_joinc slash lbrace _ eq_refl). rewrite csum_app. simpl. rewrite Hn.
+  rewrite (csum_0 lbrace (map pseg (t_pre t))) by (apply psegs_no; [assumption|tauto]).
+  rewrite (csum_0 lbrace (map pseg (t_post t))) by (apply psegs_no; [assumption|tauto]).
+  reflexivity.
+Qed.
+
+Lemma is_any_group k r : is_any (ROpen k :: r) = false.
+Proof. reflexivity. Qed.
+
+Lemma convert_class t : aip_class t = true -> convert_to_regex (tmpl_print t) = Ok (rx_of t).
+Proof.
+  intro Hc. pose proof (count_print t Hc) as Hcount.
+  unfold convert_to_regex.
+  destruct (String.length (tmpl_print t)) as [|n] eqn:El.
+  { destruct (tmpl_print t); [discriminate Hcount|discriminate El]. }
+  rewrite convert_S. rewrite Hcount. cbn [Nat.ltb Nat.leb].
+  rewrite (split_named t Hc).
+  pose proof (conv_named n t Hc) as Hnamed.
+  assert (Hc' := Hc). unfold aip_class in Hc'. repeat (apply andb_true_iff in Hc' as [Hc' ?]).
+  rename H4 into Hokpost, H5 into Hoksub. rename Hc' into Hokpre.
+  assert (Hmr : map_res (convert_segment (convert (S n))) (map pseg (t_pre t) ++ named_str t :: map pseg (t_post t))%list
+                = Ok (map single (t_pre t) ++ group_items t :: map single (t_post t))%list).
+  { apply map_res_app; [now apply map_res_plain|]. cbn [map_res]. rewrite Hnamed. now rewrite (map_res_plain _ _ Hokpost). }
+  rewrite Hmr. f_equal. unfold rx_of.
+  destruct (t_pre t) as [|p ps].
+  - cbn [map app merge_rx]. now rewrite merge_tail_plain.
+  - cbn [map app merge_rx items_first]. unfold single at 1. cbn [app]. f_equal.
+    rewrite flat_map_app. rewrite merge_tail_plain. cbn [flat_map]. rewrite merge_tail_plain.
+    unfold merge_piece, group_items. rewrite is_any_group. reflexivity.
+Qed.
+
+Lemma first_group_class t : first_group (rx_of t) = Some (t_key t).
+Proof.
+  unfold rx_of. destruct (t_pre t) as [|p ps]; [reflexivity|].
+  assert (H : forall l rest, first_group (items_tail l ++ rest)%list = first_group rest).
+  { induction l as [|s l IH]; intros rest; [reflexivity|]. destruct s; simpl; apply IH. }
+  cbn [items_first app first_group]. destruct p; cbn [item]; rewrite H; reflexivity.
+Qed.
+
+Lemma print_nonempty t : is_empty (tmpl_print t) = false.
+Proof.
+  unfold tmpl_print. destruct (map pseg (t_pre t)) as [|x l].
+  - simpl. unfold named_str. destruct (t_short t); reflexivity.
+  - simpl. destruct x; [|reflexivity]. simpl. destruct l; reflexivity.
+Qed.
+
+(* ---- the main statement ---- *)
+Lemma routing_contribution_correct_l : forall (t : tmpl) (field v : string),
+  aip_class t = true -> nl_free v = true ->
+  contribution {| p_field := field; p_template := tmpl_print t |} v = Ok (aip_contribution t v) /\
+  emit_param {| p_field := field; p_template := tmpl_print t |} =
+    (if repr_fits ("^" ++ rx_print (rx_of t) ++ "$")
+     then Ok (BRegex ("^" ++ rx_print (rx_of t) ++ "$") (disambiguated field) (t_key t)) else Err ETrunc).
+Proof.
+  intros t field v Hc Hn. split.
+  - unfold contribution. cbn [p_template p_field]. rewrite print_nonempty. rewrite (convert_class t Hc).
+    rewrite first_group_class. rewrite <- (sem_equiv t v Hc Hn). unfold contrib_of.
+    destruct (rx_match (rx_of t) v) as [[cap|]|]; reflexivity.
+  - unfold emit_param. cbn [p_template p_field]. rewrite print_nonempty. rewrite (convert_class t Hc).
+    unfold key_of. rewrite first_group_class. reflexivity.
+Qed.
